@@ -177,6 +177,75 @@ def figure8(repo, seed):
     return sim, _finish(sim, watch, acked_c), None
 
 
+def stale_match_reelection(repo, seed):
+    """A node that leads twice must not count, in its second term of office, what followers acknowledged in its first:
+    5 voters, four terms, message delays only.  Term 1: A replicates 3..5 to B only.  Term 2: C (votes of D, E) writes
+    its no-op at 3, which reaches A only and replaces A's 3..5.  Term 3: A (votes of D, E) appends no-op and `from-A`,
+    replicates to D only: A, D hold position 5 — no majority, whatever B acknowledged in term 1.  Term 4: C (votes of
+    B, E) commits `from-C` at 5."""
+    ids = ["a", "b", "c", "d", "e"]
+    sim = Sim(repo, ids, seed=seed, conf={"raftMinTimeout": 0.5, "raftMaxTimeout": 0.5625, "leaderFallbackTimeout": 30.0})
+    watch = _watchers(sim)
+    sim.connect_all()
+    if not _elect(sim, "a", ids):
+        return sim, [], "a not elected"
+    _among(sim, ids, 4, tickers=["a"])
+    watch.step()
+    for y in ("c", "d", "e"):
+        sim.disconnect("a", y)
+    for k in range(3):
+        sim.submit("a", "A%d" % k)
+    for _ in range(3):
+        sim.tick("a", 0.125)
+        sim.deliver_all(among={"a", "b"})
+    watch.step()
+    if sim.last_index("b") < 5:
+        return sim, [], "b did not get a's entries"
+    sim.disconnect("a", "b")
+    if not _elect_votes_only(sim, "c", ["c", "d", "e"]):
+        return sim, [], "c not elected"
+    sim.connect("a", "c")
+    for _ in range(4):
+        sim.tick("c", 0.0625)
+        sim.chan[("c", "d")].clear()
+        sim.chan[("c", "e")].clear()
+        while sim.deliver("c", "a"):
+            pass
+        while sim.deliver("a", "c"):
+            pass
+    watch.step()
+    la = sim.log_of("a")
+    if not (len(la) >= 3 and la[2][1] == sim.objs["c"].raftCurrentTerm):
+        return sim, [], "a did not take c's entry"
+    _isolate(sim, "c")
+    sim.connect("a", "d")
+    sim.connect("a", "e")
+    if not _elect_votes_only(sim, "a", ["a", "d", "e"]):
+        return sim, [], "a not elected again"
+    sim.submit("a", "from-A")
+    for _ in range(6):
+        sim.tick("a", 0.0625)
+        sim.chan[("a", "e")].clear()
+        while sim.deliver("a", "d"):
+            pass
+        while sim.deliver("d", "a"):
+            pass
+        watch.step()
+    acked = _acked(sim)
+    _isolate(sim, "a")
+    sim.connect("c", "b")
+    sim.connect("c", "e")
+    sim.connect("b", "e")
+    if not _elect(sim, "c", ["b", "c", "e"]):
+        return sim, _finish(sim, watch, acked), "c not elected in the end"
+    sim.submit("c", "from-C")
+    _among(sim, ["b", "c", "e"], 12)
+    watch.step()
+    sim.connect_all()
+    _among(sim, ids, 24)
+    return sim, _finish(sim, watch, acked), None
+
+
 def longer_older_log(repo, seed):
     sim = Sim(repo, ["a", "b", "c"], seed=seed,
               conf={"raftMinTimeout": 0.5, "raftMaxTimeout": 0.5625, "leaderFallbackTimeout": 1.0})
@@ -292,7 +361,7 @@ def stale_tail_snapshot(repo, seed):
     return sim, v, None
 
 
-SCENARIOS = [("stale_tail_snapshot", stale_tail_snapshot), ("figure8", figure8), ("longer_older_log", longer_older_log), ("even_split", even_split),
+SCENARIOS = [("stale_tail_snapshot", stale_tail_snapshot), ("figure8", figure8), ("stale_match_reelection", stale_match_reelection), ("longer_older_log", longer_older_log), ("even_split", even_split),
              ("double_vote", double_vote)]
 
 
